@@ -143,12 +143,12 @@ static void ref1(Out& ref, i128 stdv, i128 exact)
 enum OpId {
     OP_CAST, OP_FLOOR, OP_CEIL, OP_ROUND, OP_RND4, OP_TP_CAST, OP_TP_RND4,
     OP_CONV, OP_TP_CONV, OP_PLUS, OP_MINUS, OP_DIV, OP_MOD, OP_CMP, OP_TP_CMP, OP_CTYPE, OP_PERIOD, OP_UNARY,
-    OP_TP_UNARY, OP_COMPOUND, OP_TP_COMPOUND, OP_ABS, OP_LIMITS, OP_FCAST_IF, OP_FCONV_IF, OP_SCALAR, OP_TP_ARITH, OP_NONE
+    OP_TP_UNARY, OP_COMPOUND, OP_TP_COMPOUND, OP_ABS, OP_LIMITS, OP_FCAST_IF, OP_FCONV_IF, OP_SCALAR, OP_TP_ARITH, OP_CASTW, OP_NONE
 };
 static OpId op_id(std::string const& s)
 {
     static char const* const names[] = {"cast", "floor", "ceil", "round", "rnd4", "tp_cast", "tp_rnd4", "conv", "tp_conv", "plus", "minus", "div", "mod", "cmp", "tp_cmp", "ctype", "period",
-        "unary", "tp_unary", "compound", "tp_compound", "abs", "limits", "fcast_if", "fconv_if", "scalar", "tp_arith"};
+        "unary", "tp_unary", "compound", "tp_compound", "abs", "limits", "fcast_if", "fconv_if", "scalar", "tp_arith", "castw"};
     for (int k = 0; k < OP_NONE; ++k) {
         if (s == names[k]) { return static_cast<OpId>(k); }
     }
@@ -237,6 +237,14 @@ struct Ops {
             auto c = static_cast<R1>(in.num());
             impl.tok("ok").num(e_cast(c));
             ref1(ref, s_cast(c), X.cast(c));
+            return true;
+        }
+        case OP_CASTW: {
+            // a cast whose exact result does not fit the target representation: no undefined behaviour,
+            // static_cast<to_rep> converts modulo 2^w (C++20); std does the same, the exact value is not compared
+            auto c = static_cast<R1>(in.num());
+            impl.tok("ok").num(e_cast(c));
+            ref.tok("ok").num(s_cast(c));
             return true;
         }
         case OP_FLOOR: {
